@@ -1,5 +1,6 @@
 import ZChain.Proofs.DKG
 import ZChain.Model.VRF
+import Mathlib.Algebra.Field.ZMod
 /-!
 # C33 — All miners derive the same round random seed
 
@@ -325,5 +326,27 @@ theorem seed_agreement (dkgA dkgB : Party F) (t : Nat) (ht : 1 ≤ t) (mpks : Li
     (hgB : (runDeliveries dkgB h tcB dsB).groupSig = some gB) : gA = gB := by
   rw [completed_groupSig dkgA t ht mpks hA h pidOf hinj h0 tcA dsA hpA gA hgA,
     completed_groupSig dkgB t ht mpks hB h pidOf hinj h0 tcB dsB hpB gB hgB]
+
+/-! ## non-vacuity (over `ZMod 7`, evaluated by the kernel) -/
+section Examples
+instance : Fact (Nat.Prime 7) := ⟨by decide⟩
+abbrev Z7 := ZMod 7
+/-- 1-of-2 over ZMod 7 (no division is needed to recover from a single share, so the kernel can evaluate it):
+published constant polynomials 3 and 5 for party ids 1 and 2; every party's key is 3+5 = 1. -/
+def exMpks : List (Z7 × List Z7) := [(1, [3]), (2, [5])]
+def exDkg : Party Z7 :=
+  { t := 1, n := 2, id := 1, msk := [3], recv := [], si := 0,
+    gmpk := exMpks.map (fun e => (e.1, (exMpks.map (fun e' => polyEval e'.2 e.1)).sum)) }
+def exPid (k : Nat) : Z7 := (k : Z7) + 1
+def exDel (k : Nat) (tc : Nat) (σ : Z7) (avail : Bool) : Delivery Z7 :=
+  { share := { party := k, pid := exPid k, tc := tc, share := σ }, msgAvailable := avail }
+
+example : DkgFrom exDkg 1 exMpks := ⟨rfl, rfl, by decide, by decide⟩
+-- message point h = 2: the valid share of every party is 1·2 = 2; an invalid one (4) is refused, a valid one completes
+example : (runDeliveries exDkg 2 0 [exDel 0 0 4 true, exDel 1 1 2 true, exDel 1 0 2 true]).groupSig = some 2 := by decide
+example : (runDeliveries exDkg 2 0 [exDel 0 0 4 true, exDel 1 1 2 true]).groupSig = none := by decide
+-- a share parked before the message is available is verified and counted on the next delivery
+example : (runDeliveries exDkg 2 0 [exDel 1 0 2 false, exDel 0 0 4 true]).shares.length = 1 := by decide
+end Examples
 
 end ZChain.VRF
